@@ -8,22 +8,22 @@ MC = "model_checking"
 checks = {
  "C16": dict(
     technique="explicit-state search over call histories (every sequence of k calls from a colliding alphabet), each history in a fresh process; differential oracle against the same call made first in a fresh process plus a deep, address-free fingerprint of every package-level variable",
-    text="All histories of length 3 (quick) / 4 (thorough) over 14 calls that collide on purpose (same pseudo root, same URLs, different content; every family of entry point; both built-in meta-schemas) run in fresh processes; every call must observe exactly what it observes as the first call of a fresh process, options and roots must be unchanged, and the package-level state after every call must equal the state after one call.",
+    text="All histories of length 3 (quick) / 4 (thorough) over 20 calls that collide on purpose (same pseudo root, same URLs, different content; every family of entry point; roots whose schema declares an id; options with an empty base; both built-in meta-schemas, also loaded and expanded in place) run in fresh processes; every call must observe exactly what it observes as the first call of a fresh process, options and roots must be unchanged, and the package-level state after every call must equal the state after one call.",
     note="Hidden state = package-level variables of package spec (enumerated from the type-checked tree). Runs on the instrumented build for a deterministic map order.",
     ref="3 C16"),
  "C17": dict(
-    technique="stateless model checking of the real code under a controlled cooperative scheduler: all schedules with <= k preemptions of 2-3 thread harnesses, scheduling points at shimmed sync operations, hooked shared accesses and pool operations; vector-clock happens-before race check and sequential-answer oracle on every schedule",
-    text="Eight harnesses (distinct roots with colliding URLs, private caches, one shared cache, shared read-only document encoded and looked up, resolve vs expand, three threads, first-ever calls racing on the lazy initialisation in fresh processes) are explored exhaustively up to 2 (quick) / 3 (thorough) preemptions; no schedule may deadlock, give a thread an answer different from its sequential answer (computed in a fresh process), contain two conflicting unordered accesses to a hooked location, or leave different package state.",
+    technique="stateless model checking of the real code under a controlled cooperative scheduler: all schedules with <= k preemptions of 2-3 thread harnesses, scheduling points at shimmed sync operations, hooked shared accesses and pool operations; vector-clock happens-before race check, sequential-answer oracle and shared-document fingerprint on every schedule; plus the auxiliary free-running pass of the same bodies under the Go race detector that a cooperative scheduler requires for unsynchronised accesses",
+    text="Thirteen harnesses (distinct roots with colliding URLs, private caches, one shared cache, a typed root and a cache shared by the WithRoot entry points, shared read-only document JSON- and gob-encoded and looked up, resolve vs expand, three threads, expansion into the built-in meta-schemas, a loaded meta-schema expanded in place next to references into it, first-ever calls racing on the lazy initialisation in fresh processes) are explored exhaustively up to 2 (quick) / 3 (thorough) preemptions; no schedule may deadlock, give a thread an answer different from its sequential answer (computed in a fresh process), contain two conflicting unordered accesses to a hooked location, modify a document the threads only share for reading, or change package state. The same bodies, each four times over, then run free under the Go race detector (25 / 150 rounds at GOMAXPROCS 2 and 16); a detector report is a violation.",
     note="Race check covers package-level variables and map-typed struct fields accessed in package spec; other memory only through answers. Code outside package spec runs atomically between scheduling points. Which map-access sites are scheduling points is decided by a profiling execution (sites where one map is touched by two threads).",
     ref="3 C17"),
  "C19": dict(
     technique="bounded-exhaustive enumeration of documents filtered by an independent validator (python jsonschema Draft-4 on the shipped schema); validity of re-encoding and of successful expansion re-checked by the same validator",
-    text="Every document of the C01 state space embedded to the Swagger root (plus referable targets and explicit $ref states) that the independent validator accepts is re-encoded and expanded by the real code; both outputs must validate again.",
-    note="python3-vt + jsonschema is the validity oracle (independent of the Go code). Known finding: an opaque-URI $ref is expanded into the whole root document.",
+    text="Every document of the C01 state space embedded to the Swagger root (plus referable targets, explicit $ref states - in-document and into one external document, relative and canonical absolute -, optional members present but empty/false/zero, required strings that are empty, response codes with leading zeros) that the independent validator accepts is re-encoded and expanded by the real code; both outputs must validate again.",
+    note="python3-vt + jsonschema is the validity oracle (independent of the Go code). Known findings: an opaque-URI $ref is expanded into the whole root document; empty required strings and leading zeros of response codes are lost by the encoder.",
     ref="3 C19"),
  "C05": dict(
     technique="exhaustive enumeration of every reference (node x location x spelling x escaping x root representation x entry point, plus dangling pointers/documents/root locations) against a reference-model resolver",
-    text="Every node of a document named by hostile member names and held at six locations is addressed through every spelling of the URI part, both fragment escapings, every Resolve* entry point and every way of supplying the root (typed pointer, typed value, generic JSON, location only); the result must equal the node designated by the reference model's RFC 3986 + RFC 6901 resolution, nested $refs untouched, root unchanged; every dangling pointer, document or root location must yield an error and a nil result, also with ContinueOnError set.",
+    text="Every node of a document named by 21 hostile member names (among them names that a second round of unescaping maps onto another name) and held at six locations is addressed through every spelling of the URI part, both fragment escapings (the fully escaped one with a reference value decoded from JSON, the other built with the constructor), every Resolve* entry point and every way of supplying the root (typed pointer, typed value, generic JSON, location only); the result must equal the node designated by the reference model's RFC 3986 + RFC 6901 resolution, nested $refs untouched, root unchanged; every dangling pointer (also through a boolean additionalProperties/additionalItems), document or root location must yield an error and a nil result, also with ContinueOnError set.",
     note="Expectation = designated JSON decoded into the requested Go type and re-encoded (codec losses are C01's). Package-level state is fingerprinted after every call.",
     ref="3 C05"),
  "C09": dict(
@@ -38,22 +38,22 @@ checks = {
     ref="3 C10"),
  "C11": dict(
     technique="breadth-first explicit-state search over rewrites of the root location (depth-bounded), real working-directory changes, differential oracle against the canonical spelling",
-    text="All spellings within k rewrites of a canonical file/http/https location (./, x/../, doubled slash, path / file:/ / file:/// forms, scheme case, fragment, query, relative to four working directories, empty base in the root's directory) are used with five entry points on five multi-document graphs; error, output and the set of requested URLs must equal those of the canonical spelling, every requested URL must be absolute, clean and fragment-free, and normalisation must be idempotent. The working-directory history is owned (a relative location is always normalised before the directory changes).",
+    text="All spellings within k rewrites (3 quick, 4 thorough) of a canonical file/http/https location - the file tree also below a directory whose name needs escaping - (./, x/../, doubled slash, path / file:/ / file:/// forms, scheme case, fragment, query, empty query, relative to four working directories, empty base in the root's directory) are used with five entry points on five multi-document graphs; error, output and the set of requested URLs must equal those of the canonical spelling, every requested URL must be absolute, clean and fragment-free, and normalisation must be idempotent. The working-directory history is owned (a relative location and a call without any location have always been made before the directory changes).",
     note="Runs with a fixed (sorted) map order so outputs of cyclic graphs are comparable.",
     ref="3 C11"),
  "C12": dict(
     technique="exhaustive enumeration of references over a segment alphabet x bases, oracle = RFC 3986 resolution by net/url with section 6.2.2 normalisation",
-    text="Every reference of up to k directory segments from {a, b.c, ., .., a%20b, non-ASCII, %41, a%2Fb} plus a file segment, relative / root-relative / absolute, with or without fragment, is resolved against file/http/https bases of depth 0..3; the first URL handed to the loader must equal the RFC 3986 resolution without the fragment.",
+    text="Every reference of up to k directory segments from {a, b.c, ., .., a%20b, non-ASCII, %41, a%2Fb, a%2520b} plus a file segment (also 100%25.json, a%2541.json), relative / root-relative / absolute, with or without fragment, is resolved against file/http/https bases of depth 0..3 and remote bases with an empty path; the first URL handed to the loader must equal the RFC 3986 resolution without the fragment. The same references are also placed in a document reached through a first reference (other directory, parent directory, other site, same path on another site), as a schema and as the schema of an imported parameter / response: the second URL requested must be the resolution against the containing document.",
     note="Known finding: %2F inside a segment is decoded to a path separator.",
     ref="3 C12"),
  "C18": dict(
     technique="enumeration of cache policies and call histories (every subset of documents pre-loaded x cache kind x two/three-call histories, refused documents, unclean URLs) over the graph alphabet; reference-model and differential (no-cache) oracles",
-    text="Every cache-taking entry point is driven with a caller-implemented and with the library's cache, every subset of external documents pre-loaded, caches reused across elements of the same root and across failing loads; results must stay bisimilar to the element (ids: equal to the no-cache result), no URL may be requested twice in one call, nothing pre-loaded may be requested, cached documents must be unchanged, and a refused document must be reported on every call.",
+    text="Every cache-taking entry point is driven with a caller-implemented and with the library's cache, every subset of external documents pre-loaded, caches reused across elements of the same root, across failing loads and after a passing failure of the root or an external document; results must stay bisimilar to the element (ids: equal to the no-cache result), no URL may be requested twice in one call, nothing pre-loaded may be requested, cached documents must be unchanged, and a refused document must be reported on every call.",
     note="For schemas with ids there is no reference model: the same call without a cache is the oracle.",
     ref="3 C18"),
  "C02": dict(
     technique="bounded-exhaustive enumeration of multi-document reference graphs (topology x placement x spelling x keyword position x entry element x chains) executed by the real ExpandSpec under every map iteration order within a deviation bound; bisimulation against a reference model of $ref semantics",
-    text="Every reference graph of the bounded alphabet (all digraphs on <= 2 nodes against every dimension, 3 nodes against placements; thorough: 3 nodes against every dimension) is expanded by the real code under all map orders within 1 deviation, and every root element of the output must be bisimilar (coinductive comparison of the possibly infinite unfoldings) to the same element of the input in a universe where every wrong-document resolution lands on a decoy. This decides meaning preservation for the whole bounded space, not for fixtures.",
+    text="Every reference graph of the bounded alphabet (all digraphs on <= 2 nodes against every dimension - 10 placements incl. a file whose name extends the root's, 10 spellings incl. queries, 13 keyword positions, path items with all seven operations and default responses, the same universe served from a remote site with a host that differs by its port only -, 3 nodes against placements; thorough: 3 nodes against every dimension) is expanded by the real code under all map orders within 1 deviation, and every root element of the output must be bisimilar (coinductive comparison of the possibly infinite unfoldings) to the same element of the input in a universe where every wrong-document resolution lands on a decoy. This decides meaning preservation for the whole bounded space, not for fixtures.",
     note="The reference model (h/model.go: RFC 3986 via net/url, RFC 6901, kinds and child positions, bisimulation) is trusted; inputs are well-formed graphs without ids and $ref siblings. Acyclic cases are replayed on the un-instrumented build with identical output.",
     ref="3 C02"),
  "C03": dict(
@@ -63,32 +63,32 @@ checks = {
     ref="3 C03"),
  "C04": dict(
     technique="exhaustive enumeration of ALL digraphs (well-formed or not) x ids x broken targets x option combinations x every entry point, with a deterministic step budget derived from the acyclic unfolding (reference model) and worker-process isolation",
-    text="All digraphs on <= 2 nodes and all 3-node digraphs up to isomorphism, with ids, bare-$ref loops, unresolvable targets of every kind, pure reference cycles of parameters/responses/path items and the scaling families ring/ladder/diamond/complete are pushed through every entry point; a call must return within 1000 x unfolding + 5000 instrumented steps without panicking; a case that kills the process is attributed to the announced case.",
+    text="All digraphs on <= 2 nodes and all 3-node digraphs up to isomorphism, with every spelling of the references, ids, bare-$ref loops, unresolvable targets of every kind (9 ways, incl. pointers through boolean unions), pure reference cycles of parameters/responses/path items and the scaling families ring/ladder/diamond/complete are pushed through every entry point; a call must return within 1000 x unfolding + 5000 instrumented steps without panicking; a case that kills the process is attributed to the announced case.",
     note="Work is counted in function entries of the instrumented package (deterministic, no wall clock). Known finding: a relative directory id on a cycle recurses forever.",
     ref="3 C04"),
  "C08": dict(
-    technique="fault enumeration inside the graph exploration: every single (thorough: pair of) reference made unresolvable in each of 7 ways x every subset (<= 2) of documents refused by the loader x ContinueOnError on/off x map orders; oracle derived from the reference model (reachability of broken references)",
-    text="For every graph on <= 2 nodes, every reference (schema edge at any keyword, entry reference, chain hop) is broken in every way, and every subset of up to two requested documents is refused by the loader; strict mode must report an error exactly when a reference it has to follow is unresolvable in the reference model; continue mode must return nil, keep unresolvable schema $refs verbatim and fully expand independent elements.",
+    technique="fault enumeration inside the graph exploration: every single (thorough: pair of) reference made unresolvable in each of 9 ways x every subset (<= 2) of documents refused by the loader x ContinueOnError on/off x map orders; oracle derived from the reference model (reachability of broken references)",
+    text="For every graph on <= 2 nodes, every reference (schema edge at any keyword, entry reference, chain hop) is broken in every way, and every subset of up to two requested documents is refused by the loader; a panic is a violation; strict mode must report an error exactly when a reference it has to follow is unresolvable in the reference model; continue mode must return nil, keep unresolvable schema $refs verbatim and fully expand independent elements.",
     note="Only schema $refs are required to stay verbatim in continue mode (statement wording); null targets are left to C04.",
     ref="3 C08"),
  "C06": dict(
     technique="stateless exploration of every map iteration order (deviation-bounded DFS over rewritten map ranges) x explicit-state BFS over builder-API histories and decoded documents, with validity / duplicate-member / reference-model / order oracles",
-    text="On a build where every map range of the package is an explorer-owned choice point, each value (all documents of cost <= d, the full product of x-order values on 2 and 3 properties, every distinct value reachable by <= k builder calls with hostile names) is encoded under every map order within 2 deviations; every output must be an error or valid JSON without repeated members, byte-identical across orders, equal to the reference model of the calls, with properties ordered by (x-order, name). Determinism is therefore enumerated, not hoped for across runs.",
+    text="On a build where every map range of the package is an explorer-owned choice point, each value (all documents of cost <= d, the full product of 14 x-order values of every JSON type on 2 and 3 properties, every distinct value reachable by <= k builder calls with hostile names) is encoded under every map order within 2 deviations; every output must be an error (not a panic) or valid JSON without repeated members, byte-identical across orders, equal to the reference model of the calls, with properties ordered by (x-order, name). Determinism is therefore enumerated, not hoped for across runs.",
     note="Map ranges inside package spec are owned; encoding/json sorts map keys itself. The builder reference model is hand-written per call (h/c06.go). Deterministic cases are replayed on the un-instrumented build (conformance).",
     ref="3 C06"),
  "C07": dict(
     technique="exhaustive enumeration of all byte strings up to a length bound over a JSON symbol alphabet, all single-position mutations of all seed documents and bounded deep nestings, into every exported type, with worker-process isolation for fatal crashes",
-    text="Every string of length <= 4 (quick) / 5 (thorough) over 14 JSON symbols and every single mutation (19 replacement values, delete, duplicate, case variant, wrap) of every seed document is decoded into every exported data type of the package (list generated from the type-checked tree); a panic, a process death, or a decode->encode result that is not a byte-exact fixed point is a violation.",
+    text="Every string of length <= 4 (quick) / 5 (thorough) over 14 JSON symbols , every single mutation (19 replacement values, delete, duplicate, case variant, wrap, 15 added members: one-letter / empty names, bare x- prefix, $ref values with %25, x-order of any type) of every seed document and every pair of 14 x-order values on sibling properties is decoded into every exported data type of the package (list generated from the type-checked tree); a panic, a process death, or a decode->encode result that is not a byte-exact fixed point is a violation.",
     note="Hangs inside encoding/json are only bounded by the run deadline. Member names that case-fold onto a keyword are checked for totality only, as the property says. OrderSchemaItem(s) are encoder-side helpers without a decoder and are checked for totality only.",
     ref="3 C07"),
  "C13": dict(
     technique="exhaustive enumeration of the product alphabet of reference strings with print/parse, JSON and gob round-trip oracles",
-    text="All ~24k reference strings of the scheme x authority x path x query x fragment product (plus opaque and zero references) go through print+parse, JSON (bare and in a holder) and gob (top level, slice element, map value); canonical text and the classification flags must be preserved and canonicalisation must be idempotent.",
+    text="All ~24k reference strings of the scheme x authority x path x query x fragment product (plus opaque and zero references) go through print+parse, JSON (bare and in a holder) and gob (top level, slice element, map value); canonical text and the classification flags must be preserved and canonicalisation must be idempotent; no read-only method (RemoteURI, IsValidURI, Inherits, IsCanonical, MarshalJSON, GobEncode) may change text, classification or pointer, and the bytes returned by GobEncode / MarshalJSON must stay intact when another reference is encoded afterwards.",
     note="Canonicalisation itself lives in the jsonreference dependency, which is part of the behaviour under test.",
     ref="3 C13"),
  "C14": dict(
     technique="bounded-exhaustive enumeration of documents (C01 state space + explicit security/payload/zero-validation states) through gob encode/decode, one decode-target type per worker process",
-    text="Every document of the C01 state space whose target is Swagger, Operation, Parameter, Schema, Response or Ref (cost <= 1 at every route, <= 2 directly; one deeper in the thorough tier) plus explicit states for empty/non-empty security requirements and payloads with nulls/empties is gob-encoded and decoded; the JSON encodings before and after must be equal as JSON values. Each worker process transports a single type, so first-use state (lazy registration) is exercised too.",
+    text="Every document of the C01 state space whose target is Swagger, Operation, Parameter, Schema, Response or Ref (cost <= 1 at every route, <= 2 directly; one deeper in the thorough tier) plus explicit states for empty/non-empty security requirements and payloads with nulls/empties is gob-encoded and decoded; the JSON encodings before and after must be equal as JSON values, and the byte slices returned by the exported GobEncode methods (Swagger, SwaggerProps, Operation, OperationProps, Ref) must stay intact when another value is encoded afterwards. Each worker process transports a single type, so first-use state (lazy registration) is exercised too.",
     note="JSON-level losses are C01's business. Known findings: zero-valued validations and empty arrays in payloads are dropped by gob.",
     ref="3 C14"),
  "C15": dict(
@@ -98,12 +98,12 @@ checks = {
     ref="3 C15"),
  "C01": dict(
     technique="bounded-exhaustive explicit-state enumeration of normal-form documents (all states of cost <= d over the Swagger/draft-4 vocabulary x every embedding route to the root) with a JSON-value round-trip oracle on the real codecs",
-    text="Every normal-form object of each of the 17 kinds with at most d optional members / non-default choices (d=2 quick, d=3 thorough), over an alphabet of keywords read against the shipped meta-schemas, hostile member names and free-form payloads, is decoded and re-encoded directly and at every position where the kind can occur below the Swagger root (every container type on the route is also a decode target). The result is a coverage statement: no document in that space loses, gains or changes a member, except the listed known findings.",
+    text="Every normal-form object of each of the 17 kinds with at most d optional members / non-default choices (d=2 quick, d=3 thorough), over an alphabet of keywords read against the shipped meta-schemas, hostile member names and free-form payloads, is decoded - after a refused document has been decoded into the same type and thrown away - and re-encoded directly and at every position where the kind can occur below the Swagger root (every container type on the route is also a decode target). The result is a coverage statement: no document in that space loses, gains or changes a member, except the listed known findings.",
     note="Trusts encoding/json's generic decoder for the oracle side and the harness' JSON value comparison; the vocabulary table is cross-checked at start-up against schemas/v2/schema.json and jsonschema-draft-04.json. Unchanged implementation executed directly.",
     ref="3 C01"),
  "C20": dict(
     technique="explicit-state enumeration of all validation states x bounded clear sequences against a reference model (bounded exhaustive model checking of the real accessors)",
-    text="Every state of the validation keywords (absent/zero/non-zero per keyword, full product in the thorough tier) on every carrier kind is visited and every accessor / every sequence of clear operations up to length 2 (quick) or 3 (thorough) is executed on the real code and compared with a keyword->value reference model; the state space of this property is finite, so this is a complete decision within the stated value domains.",
+    text="Every state of the validation keywords (absent/zero/non-zero per keyword, full product in the thorough tier) on every carrier kind is visited and every accessor / every sequence of clear operations up to length 2 (quick) or 3 (thorough) / every ordered pair of families in which a callback of the outer clear clears the inner family (re-entrant use) is executed on the real code and compared with a keyword->value reference model; the state space of this property is finite, so this is a complete decision within the stated value domains.",
     note="Trusts reflect.DeepEqual and the harness' own reference model; value domain per keyword is {absent, 0, one non-zero value}; unchanged implementation is executed directly (no model of it).",
     ref="3 C20"),
 }
